@@ -196,10 +196,11 @@ PROPS["C05"] = dict(
     module="RaptorModel.Props.C05",
     harnesses=["h_c05"],
     configs=c05_configs,
-    rule=("five scenarios (packages built back to back with reused tags + exchanges; assembly, mat-vec, SpGEMM, transpose; AMG setup+solve with "
-          "CLJP/PMIS and with MIS-2 aggregation; repartitioning) x schedules of the PMPI layer: natural, reverse, random wildcard orders with "
+    rule=("eight scenarios (packages built back to back with reused tags + exchanges, also with nothing in between; assembly, mat-vec, SpGEMM, "
+          "transpose; AMG setup+solve with CLJP/PMIS and with MIS-2 aggregation; repartitioning; MIS-2 on a directed strength pattern whose "
+          "send and receive neighbours differ; a package used 2346 times, a second one built and the first used again at once) x schedules of the PMPI layer: natural, reverse, random wildcard orders with "
           "seeded delays of sends and collective entries, and every permutation of source preference at each wildcard site (tags 12345, 6543, "
-          "9876, 6789, 4321, 7890, 29485) for np <= 3 (4 thorough); results compared with the reference schedule, traces validated. "
+          "9876, 6789, 4321, 7890, 29485) for np <= 3 (4 thorough), synchronously completing sends, one laggard rank, and 'slow tag' schedules that hold back every message of one tag (19432, 23491, 12345) on all ranks or on one; results compared with the reference schedule, traces validated. "
           "Non-trivial = the run made at least one wildcard choice / exchanged at least one message."),
     trusted=COMMON_TRUST + ["real MPI progress engine (the layer can only choose among messages that have arrived)",
                             "the PMPI layer and its logging"],
